@@ -190,6 +190,13 @@ def run(ctx) -> None:
                    {"inp": X(x), "valid_span": (lo, hi), "start_inclusive": inc[0], "end_inclusive": inc[1]},
                    {"inp": X(off(x, c)), "valid_span": (lo + c, hi + c), "start_inclusive": inc[0], "end_inclusive": inc[1]},
                    ident, {**case, "valid_span": [lo, hi], "inclusive": inc})
+            ivals = [int(v) for v in (rng.randrange(-5, 6) for _ in range(n))]
+            ilo, ihi = sorted((rng.randrange(-4, 5), rng.randrange(-4, 5)))
+            ioff = rng.choice([1000, 2 ** 40, 2 ** 60, -(2 ** 60), 2 ** 62 - 100])
+            relate(ctx, "valid_range-int64", "joint-shift", ioff, "axds.valid_range_test",
+                   {"inp": np.array(ivals, dtype=np.int64), "valid_span": (ilo, ihi), "start_inclusive": inc[0], "end_inclusive": inc[1]},
+                   {"inp": np.array([v + ioff for v in ivals], dtype=np.int64), "valid_span": (ilo + ioff, ihi + ioff),
+                    "start_inclusive": inc[0], "end_inclusive": inc[1]}, ident, {"values": ivals, "valid_span": [ilo, ihi], "inclusive": inc})
             a, b = sorted(rng.sample(t, 2)) if n >= 2 else (t[0], t[0] + 5)
             d64 = lambda s: gen.times([s], "dt64ns")[0]  # noqa: E731
             relate(ctx, "valid_range-time", "time-shift", dt_, "axds.valid_range_test",
@@ -275,9 +282,10 @@ def run(ctx) -> None:
             fl = {"suspect_threshold": ks * D, "fail_threshold": kf * D, "tolerance": rng.choice([0.5, 1.5])}
             local("flat_line", "qartod.flat_line_test", {"inp": X(x), "tinp": TT(tr), **fl}, "inp", x,
                   lambda p_: set(range(p_, p_ + max(ks, kf) + 1)), fl)
-            per = rng.choice([2 * D, 3 * D + 1])
+            per = max(D, rng.choice([2 * D, 3 * D + 1, (n - 1) * D, n * D + 7]))  # also windows as long as the whole record
             for kind in ("std", "range"):
-                at = {"suspect_threshold": 1.1, "fail_threshold": 0.3, "check_type": kind, "test_period": per,
-                      "min_obs": rng.choice([1, 2])}
+                at = {"suspect_threshold": 1.1, "fail_threshold": 0.3, "check_type": kind, "test_period": per}
+                if rng.random() < 0.6:
+                    at["min_obs"] = rng.choice([1, 2])
                 local(f"attenuated-{kind}-window", "qartod.attenuated_signal_test", {"inp": X(x), "tinp": TT(tr), **at}, "inp", x,
                       lambda p_: {i for i in range(n) if tr[i] - per < tr[p_] <= tr[i]}, at)
